@@ -8,6 +8,7 @@
    [did_of n f] = the current data_id of node n. *)
 From Coq Require Import List ZArith Bool Arith Permutation.
 From NT Require Import Sx Rose Surgery Machine WF Lookup QueriesProofs Invariant.
+From NT Require MiscMapper MiscMapperProofs MiscRepr MiscWrap MiscWrapProofs.   (* part WRAP, imported at the end of this file *)
 Import ListNotations.
 
 (* ---- under WF ---- *)
@@ -266,3 +267,138 @@ Example C02_set_data_rekeys_nonvacuous :
   lk_find_all_did (nth 0 (trees w') (TS [] [] [] false None)) (DInt 77) = [1] /\
   lk_find_all_did (nth 0 (trees w') (TS [] [] [] false None)) (DInt 10) = [].
 Proof. vm_compute. repeat split. Qed.
+
+(* ==== PART WRAP: common.DictWrapper, the data flavour whose lookups go by the IDENTITY of a wrapped dict (model
+   theories/Forest/MiscWrap.v, correspondence Cases/CaseMiscWrap.v, harness parts_misc.WRAP).  A [world] is the list of
+   dict objects (index = identity, value = content) and the list of wrappers (value = identity of the dict in `_dict`);
+   [addr di] is the id() of dict object di (an input; [addr_inj]: objects alive together have different ids). ==== *)
+Import MiscMapper MiscMapperProofs MiscRepr MiscWrap MiscWrapProofs.
+
+(* two wrappers are equal iff they wrap the same dict OBJECT; == is an equivalence and never looks at the content *)
+Theorem C02_wrap_eq_iff_same_dict : forall w i j, w_eq w i j = true <-> dict_of w i = dict_of w j.
+Proof. exact w_eq_iff. Qed.
+Print Assumptions C02_wrap_eq_iff_same_dict.
+
+Theorem C02_wrap_eq_equivalence : forall w,
+  (forall i, w_eq w i i = true) /\ (forall i j, w_eq w i j = w_eq w j i) /\
+  (forall i j k, w_eq w i j = true -> w_eq w j k = true -> w_eq w i k = true).
+Proof. intros w. exact (conj (w_eq_refl w) (conj (w_eq_sym w) (w_eq_trans w))). Qed.
+Print Assumptions C02_wrap_eq_equivalence.
+
+Theorem C02_wrap_eq_content_blind : forall ds ds' ws i j, w_eq (W ds ws) i j = w_eq (W ds' ws) i j.
+Proof. exact w_eq_content_blind. Qed.
+Print Assumptions C02_wrap_eq_content_blind.
+
+(* consistent with hash: equal wrappers hash alike; with distinct ids for distinct objects, hash decides equality *)
+Theorem C02_wrap_eq_hash : forall addr w i j, w_eq w i j = true -> w_hash addr w i = w_hash addr w j.
+Proof. exact w_eq_hash. Qed.
+Print Assumptions C02_wrap_eq_hash.
+
+Theorem C02_wrap_hash_decides_eq : forall addr w i j, addr_inj addr -> (w_hash addr w i = w_hash addr w j <-> w_eq w i j = true).
+Proof. exact w_hash_eq. Qed.
+Print Assumptions C02_wrap_hash_decides_eq.
+
+(* DictWrapper(d_i), DictWrapper(d_j): equal iff i = j – whatever the two dicts contain (equal contents included) *)
+Theorem C02_wrap_distinct_dicts_unequal : forall addr w di dj,
+  w_eq (fst (step addr (fst (step addr w (OWrap (CDict di) []))) (OWrap (CDict dj) []))) (length (w_wraps w)) (S (length (w_wraps w)))
+  = Nat.eqb di dj.
+Proof. exact wrap_two. Qed.
+Print Assumptions C02_wrap_distinct_dicts_unequal.
+
+(* the constructor: a dict passed positionally is held by reference (an EMPTY one too); keywords make a new dict;
+   dict + keywords is a ValueError, a non-dict a TypeError, both without any effect *)
+Theorem C02_wrap_ctor_by_reference : forall addr w di,
+  step addr w (OWrap (CDict di) []) = (W (w_dicts w) (w_wraps w ++ [di]), RWrap (length (w_wraps w))) /\
+  dict_of (fst (step addr w (OWrap (CDict di) []))) (length (w_wraps w)) = di.
+Proof. exact wrap_dict_by_reference. Qed.
+Print Assumptions C02_wrap_ctor_by_reference.
+
+Theorem C02_wrap_ctor_keywords : forall addr w kv,
+  dict_of (fst (step addr w (OWrap CNone kv))) (length (w_wraps w)) = length (w_dicts w) /\
+  content_of (fst (step addr w (OWrap CNone kv))) (length (w_wraps w)) = kv.
+Proof. exact wrap_keywords_new_dict. Qed.
+Print Assumptions C02_wrap_ctor_keywords.
+
+Theorem C02_wrap_ctor_refusals : forall addr w di k v kv a,
+  step addr w (OWrap (CDict di) ((k, v) :: kv)) = (w, RErr E_VALUE) /\ step addr w (OWrap COther a) = (w, RErr E_TYPE).
+Proof. exact wrap_refusals. Qed.
+Print Assumptions C02_wrap_ctor_refusals.
+
+(* a wrapper made from keywords or by deserialize_mapper equals no wrapper that existed before *)
+Theorem C02_wrap_fresh_unequal : forall addr w o wi,
+  wf w -> (exists kv, o = OWrap CNone kv) \/ (exists di, o = ODeser di) -> wi < length (w_wraps w) ->
+  w_eq (fst (step addr w o)) wi (length (w_wraps w)) = false.
+Proof. exact fresh_wrapper_unequal. Qed.
+Print Assumptions C02_wrap_fresh_unequal.
+
+(* item writes go through to the wrapped dict and are visible through EVERY wrapper of it; nothing else changes *)
+Theorem C02_wrap_write_through : forall addr w wi k v wj,
+  dict_of w wi < length (w_dicts w) -> w_eq w wi wj = true ->
+  step addr (fst (step addr w (OSet wi k v))) (OGet wj k) = (fst (step addr w (OSet wi k v)), RGot v) /\
+  d_get (dict_at (fst (step addr w (OSet wi k v))) (dict_of w wi)) k = Some v.
+Proof. exact set_visible. Qed.
+Print Assumptions C02_wrap_write_through.
+
+Theorem C02_wrap_write_frame : forall addr w wi k v,
+  (forall k', dict_of w wi < length (w_dicts w) -> k' <> k ->
+     d_get (dict_at (fst (step addr w (OSet wi k v))) (dict_of w wi)) k' = d_get (dict_at w (dict_of w wi)) k') /\
+  (forall dj, dj <> dict_of w wi -> dict_at (fst (step addr w (OSet wi k v))) dj = dict_at w dj) /\
+  (forall wj, w_eq w wi wj = false -> content_of (fst (step addr w (OSet wi k v))) wj = content_of w wj).
+Proof.
+  intros addr w wi k v.
+  exact (conj (set_frame_key addr w wi k v) (conj (set_frame_dict addr w wi k v) (set_frame_wrapper addr w wi k v))).
+Qed.
+Print Assumptions C02_wrap_write_frame.
+
+Theorem C02_wrap_direct_write_visible : forall addr w di k v wj, di < length (w_dicts w) -> dict_of w wj = di ->
+  step addr (fst (step addr w (OSetDirect di k v))) (OGet wj k) = (fst (step addr w (OSetDirect di k v)), RGot v).
+Proof. exact direct_write_visible. Qed.
+Print Assumptions C02_wrap_direct_write_visible.
+
+(* the mapper pair is inverse on the dict content: serialize_mapper hands out a NEW dict with the wrapped content,
+   deserialize_mapper of it a NEW wrapper around a third dict with that content, unequal to the original, which is untouched *)
+Theorem C02_wrap_mapper_pair_inverse : forall addr w wi,
+  wf w -> wi < length (w_wraps w) ->
+  let w1 := fst (step addr w (OSer wi)) in
+  let w2 := fst (step addr w1 (ODeser (length (w_dicts w)))) in
+  snd (step addr w (OSer wi)) = RDict (length (w_dicts w)) /\
+  dict_at w1 (length (w_dicts w)) = content_of w wi /\
+  content_of w2 (length (w_wraps w)) = content_of w wi /\
+  dict_of w2 (length (w_wraps w)) = S (length (w_dicts w)) /\
+  w_eq w2 wi (length (w_wraps w)) = false /\
+  content_of w2 wi = content_of w wi.
+Proof. exact mapper_roundtrip. Qed.
+Print Assumptions C02_wrap_mapper_pair_inverse.
+
+(* the data_id of a node holding a wrapper is the identity of the wrapped dict; two such nodes are clones iff their
+   wrappers wrap the same dict, i.e. iff the wrappers are equal *)
+Theorem C02_wrap_data_id : forall addr w wi, node_data_id addr w wi = addr (dict_of w wi).
+Proof. exact data_id_is_dict_identity. Qed.
+Print Assumptions C02_wrap_data_id.
+
+Theorem C02_wrap_clones_iff_same_dict : forall addr w wi wj, addr_inj addr ->
+  (In wj (clones_of addr w wi) <-> wj < length (w_wraps w) /\ dict_of w wj = dict_of w wi).
+Proof. exact clones_iff_same_dict. Qed.
+Print Assumptions C02_wrap_clones_iff_same_dict.
+
+(* every script whose indices exist keeps "each wrapper holds an allocated dict" *)
+Theorem C02_wrap_reachable_wf : forall addr ops, ops_ok addr empty_world ops -> wf (fst (run addr empty_world ops)).
+Proof. intros addr ops. apply run_wf. exact wf_empty. Qed.
+Print Assumptions C02_wrap_reachable_wf.
+
+(* non-vacuity: equal-content dicts 0 and 1; wrappers 0,2 of dict 0 and 1 of dict 1: unequal / equal, the write through
+   wrapper 2 is read through wrapper 0 and not through 1, the round trip gives an unequal wrapper with the same content,
+   hashes are the dicts' ids, repr of the empty-dict wrapper after the write, clone group {0, 2} *)
+Example C02_wrap_ex :
+  snd (run ex_addr empty_world ex_script) =
+  [RDict 0; RDict 1; RWrap 0; RWrap 1; RWrap 2; RBool false; RBool true; RUnit; RGot (PInt 5); RErr E_KEY; RDict 2; RWrap 3;
+   RBool false; RGot (PInt 5); RInt 1000; RInt 1000; RInt 1008; RDict 4; RWrap 4; RUnit;
+   RText [68; 105; 99; 116; 87; 114; 97; 112; 112; 101; 114; 60; 123; 39; 107; 39; 58; 32; 40; 41; 125; 62]%Z;
+   RText [68; 105; 99; 116; 87; 114; 97; 112; 112; 101; 114; 60; 123; 39; 97; 39; 58; 32; 49; 44; 32; 39; 98; 39; 58; 32; 53; 125; 62]%Z] /\
+  w_dicts (fst (run ex_addr empty_world ex_script)) =
+  [[([97%Z], PInt 1); ([98%Z], PInt 5)]; [([97%Z], PInt 1)]; [([97%Z], PInt 1); ([98%Z], PInt 5)]; [([97%Z], PInt 1); ([98%Z], PInt 5)]; [([107%Z], PTuple [])]] /\
+  clones_of ex_addr (fst (run ex_addr empty_world ex_script)) 0 = [0; 2].
+Proof. exact ex_wrap_run. Qed.
+
+Example C02_wrap_ex_addr_inj : addr_inj ex_addr.
+Proof. exact ex_addr_inj. Qed.
